@@ -388,15 +388,28 @@ field_required_flag = z3.Function("parsed_field_required", V, B)     # ghost: th
 field_alias = z3.Function("parsed_field_alias", V, V)
 
 
+usable_name = z3.Function("usable_attribute_name", S, B)     # ghost: a non-empty identifier that is no keyword and has no leading underscore
+
+
+@specfn("usable_name")
+def _usable_name(ex, fr, s_):
+    return VBool(usable_name(s_.t))
+
+
 @contract(P, "JsonSchemaParser.get_attname", props=["C15"])
 class GET_ATTNAME:
+    """interface: the name handed out is none of the excluded ones (exit condition of its while loop) and is usable as an
+    attribute of a data class (what the regular-expression clean-up, the keyword suffix and -- after the repair -- the
+    `field_` prefix are for)"""
     self_model = "JsonSchemaParser"
     cases = {"any": dict(name=STR, excludes=LIST)}
     result = STR
-    returns = {"no_dunder": "result != '__annotations__' and result != '__options__' and result != '__doc__'"}
+    returns = {"no_dunder": "result != '__annotations__' and result != '__options__' and result != '__doc__'",
+               "not_an_excluded_name": "not (result in excludes)",
+               "usable": "usable_name(result)", "no_leading_underscore": "not result.startswith('_')", "nonempty": "len(result) > 0"}
     only_raises = []
-    trusted = ("re.sub / keyword.iskeyword: external; interface: returns a str that is not a dunder name (leading and trailing "
-               "underscores are stripped); identifier-ness and uniqueness are not decided here")
+    trusted = ("re.sub / keyword.iskeyword / str.strip: external string functions; interface: a usable attribute name that is "
+               "not among `excludes` (the loop `while name in excludes` ends only then; its termination is not proved)")
 
 
 @contract(P, "JsonSchemaParser.parse_field", props=["C15"])
@@ -417,6 +430,57 @@ def _built_required(ex, fr, f):
 @specfn("built_alias")
 def _built_alias(ex, fr, f):
     return VObj(field_alias(ex.box(f)))
+
+
+_dir_arr = z3.Function("dir_names", V, sym.ARR)
+_dir_len = z3.Function("dir_count", V, I)
+
+
+def _install_dir(world):
+    def _dir(ex, a, k):
+        o = ex.box(a[0])
+        ex.world.ext.use(ex, "dir(cls): a finite list of strings, a function of the class")
+        ex.assume(_dir_len(o) >= 0)
+        r = VSeq("list", _dir_arr(o), _dir_len(o))
+        r.elem = STR
+        return r
+    world.builtins["dir"] = VFunc("dir", _dir)
+
+
+_C.INSTALLERS.append(_install_dir)
+
+
+@specfn("reserved_name")
+def _reserved_name(ex, fr, parser, name):
+    """`name` is an attribute of the base class the generated data classes derive from (dict methods, parser attributes)"""
+    o = ex.box(parser.fields["object_base_cls"])
+    kb = ex.box(name)
+    return VBool(ex.exists(0, _dir_len(o), lambda i: z3.Select(_dir_arr(o), i) == kb))
+
+
+@specfn("built_attname")
+def _built_attname(ex, fr):
+    """the attribute name the one property got in the class that was built"""
+    attrs = getattr(ex, "built_attrs", None)
+    if isinstance(attrs, VMap):
+        return VStr(sym.unbox_str(z3.Select(attrs.keys, 0)))
+    if isinstance(attrs, VDict):
+        ks = [kk for kk in attrs.items if not kk.startswith("__")]
+        if len(ks) == 1:
+            return VStr(ks[0])
+    raise Unsupported("no class with one field attribute was built on this path")
+
+
+@specfn("built_field_alias")
+def _built_field_alias(ex, fr):
+    attrs = getattr(ex, "built_attrs", None)
+    if isinstance(attrs, VMap):
+        return VObj(field_alias(z3.Select(attrs.vals, 0)))
+    if isinstance(attrs, VDict):
+        vals = [v for kk, (p, v) in attrs.items.items() if not kk.startswith("__")]
+        if len(vals) == 1:
+            return VObj(field_alias(ex.box(vals[0])))
+    raise Unsupported("no class with one field attribute was built on this path")
 
 
 class _MetaCls(Desc):
@@ -446,7 +510,7 @@ def _po_schema(key, required_has_key):
 
 def _po_cases():
     out = {}
-    for key in ("size", "content-type", "class", "items"):
+    for key in ("size", "content-type", "class", "items", "_private", "__parser__", ""):
         for req in (True, False):
             out["%s,%s" % (key, "required" if req else "optional")] = dict(
                 self=Rec("JsonSchemaParser", object_meta_cls=_MetaCls(), object_base_cls=OBJ, object_options_cls=OBJ_NN,
@@ -476,7 +540,170 @@ class PARSE_OBJECT:
     field and one that is not listed an optional field -- whatever its name, including names that are not
     valid identifiers ('content-type'), keywords ('class') or dict attributes ('items') and are renamed."""
     cases = _po_cases()
-    returns_by_case = {cn: {"required_iff_listed": "built_field_required('%s') == %s" % (cn.split(",")[0], cn.endswith(",required"))}
+    returns_by_case = {cn: {"required_iff_listed": "built_field_required('%s') == %s" % (cn.split(",")[0], cn.endswith(",required")),
+                            # `building a type succeeds, including property names that ... collide with mapping methods`: the attribute
+                            # the property is stored under is not one the base class already has, and is a usable name; the property's
+                            # own key stays the name it is given and published under
+                            "attribute_name_is_free": "not reserved_name(self, built_attname())",
+                            "attribute_name_is_usable": "usable_name(built_attname()) or built_attname() == '%s'" % cn.split(",")[0],
+                            "a_leading_underscore_is_renamed": "not built_attname().startswith('_')",
+                            # (an alias that is the empty string means "no alias" to Field.get_alias)
+                            "own_key_stays_the_public_name": "built_attname() == '%s' or (built_field_alias() == '%s' and len('%s') > 0)"
+                                                             % (cn.split(",")[0], cn.split(",")[0], cn.split(",")[0])}
                        for cn in _po_cases()}
     only_raises = ["Exception"]
     assumes = ["BOUNDED: one property, empty property schema, no $ref / dependentRequired / additionalProperties"]
+
+
+# ------------------------------------------------------------------------------------ _get_args (C13: generation never crashes on a declared type)
+
+from contracts.parsing import DICT
+
+@contract(G, "JsonSchemaGenerator.generate_for_type", props=["C13"])
+class GEN_FOR_TYPE_IFACE:
+    """interface used by _get_args: the schema of one argument type is a dict"""
+    cases = {"any": dict(self=Rec("JsonSchemaGenerator"), t=OBJ)}
+    result = DICT
+    returns = {"keyword_values_are_text": "kw_is_str(result, 'pattern') and kw_is_str(result, 'format') and kw_is_str(result, 'type')"}
+    only_raises = []
+    trusted = ("dispatch over all kinds of types (recursion): interface only -- returns a dict whose `pattern`, `format` and `type` "
+               "keywords, when present, are strings (as JSON Schema requires)")
+
+
+@specfn("kw_is_str")
+def _kw_is_str(ex, fr, m, key):
+    kb = ex.box(key)
+    return VBool(ex.forall(0, m.n, lambda i: z3.Implies(z3.Select(m.keys, i) == kb, z3.And(
+        z3.Select(m.vals, i) == sym.box_str(sym.unbox_str(z3.Select(m.vals, i))),
+        sym.ty(z3.Select(m.vals, i)) == ex.world.classes.of_py(str).t))))
+
+
+def _rule_with_args(origin_py, n):
+    def mk(ex):
+        rec = ex.world.models["RuleClass"].fresh(ex, "r", combinator=NONE)
+        rec.fields["__origin__"] = ex.world.classes.of_py(origin_py)
+        rec.fields["__args__"] = VTup([VCls(ex.fresh("argt%d" % i, V), name="arg%d" % i) for i in range(n)])
+        return rec
+    return Const(mk, name="%s[%d args]" % (origin_py.__name__, n), accept=lambda v: isinstance(v, VRec))
+
+
+def _ga_cases():
+    import collections as _c
+    out = {}
+    for oname, opy, ns in (("dict", dict, (1, 2)), ("list", list, (1,)), ("set", set, (1,)), ("tuple", tuple, (1, 2)), ("int", int, (1,))):
+        for n in ns:
+            for ell in ((False, True) if opy is tuple else (False,)):
+                out["%s,%d%s" % (oname, n, ",ellipsis" if ell else "")] = dict(self=Rec("JsonSchemaGenerator"), r=_rule_with_args(opy, n), _ell=ell)
+    return out
+
+
+@contract(G, "JsonSchemaGenerator._get_args", props=["C13"])
+class GET_ARGS:
+    """`the generated document is a valid JSON Schema` presupposes that generation returns: for every generic type the
+    parser accepts -- a mapping with a key type only (`class M(dict, Rule): __args__ = (str,)`, which _parse_map_args
+    supports) included -- the argument keywords are produced without an exception, under the keyword the origin calls for."""
+    cases = {k: {kk: vv for kk, vv in v.items() if kk != "_ell"} for k, v in _ga_cases().items()}
+    result = OBJ
+    returns_by_case = {
+        k: ({"keyword": "'patternProperties' in result"} if k.startswith("dict") else
+            {"keyword": "'items' in result"} if (k.startswith(("list", "set")) or k.endswith("ellipsis")) else
+            {"keyword": "'prefixItems' in result"} if k.startswith("tuple") else {"keyword": "len(result) == 0"})
+        for k in _ga_cases()}
+    only_raises = []
+    frame = ["r"]
+    assumes = ["generate_for_type is an interface (a dict per argument)", "FORMAT_PATTERNS.get: a pattern string or None"]
+
+    @staticmethod
+    def setup(ex, frame):
+        r = frame.env["r"]
+        ell = _ga_cases()[ex.case_name]["_ell"]
+        r.fields["__ellipsis_args__"] = VBool(ell)
+
+
+# ------------------------------------------------------------------------------------ generate_for_type: Enum classes (C13)
+
+import enum as _enum
+
+
+class MixedEnum(_enum.Enum):          # the declared types the cases are about (never instantiated by the engine)
+    A = 1
+    B = "b"
+
+
+class IntEnumLike(_enum.Enum):
+    A = 1
+    B = 2
+
+
+class StrEnumLike(_enum.Enum):
+    A = "a"
+    B = "b"
+
+
+_ENUM_CASES = {"mixed": MixedEnum, "ints": IntEnumLike, "strs": StrEnumLike}
+
+
+def _install_enums(world):
+    world.models["EnumMember"] = RecordModel(world, G, "<enum member>", dict(value=OBJ))
+    world.inline.add((G, "JsonSchemaGenerator._get_primitive"))
+    world.inline.add((G, "JsonSchemaGenerator._get_format"))
+    for py in _ENUM_CASES.values():
+        key = "%s.%s" % (py.__module__, py.__qualname__)
+
+        def members(ex, py=py):
+            d = VDict()
+            for nm, mem in py.__members__.items():
+                v = VInt(mem.value) if isinstance(mem.value, int) else VStr(mem.value)
+                d.items[nm] = (z3.BoolVal(True), VRec(world.models["EnumMember"], {"value": v}, ref=ex.fresh("member_" + nm, V)))
+            return d
+        world.ext_table[key + ".__members__"] = members
+        world.ext_table[key + ".__base__"] = world.classes.of_py(_enum.Enum)
+
+
+_C.INSTALLERS.append(_install_enums)
+
+_JSON_TYPE_OF = {int: ("integer", "number"), str: ("string",)}
+
+
+@specfn("type_keyword_admits_every_member")
+def _type_admits(ex, fr, result, t):
+    """if the generated schema carries a `type` keyword, every member value of the Enum (what the encoder publishes for a
+    member) is of that JSON type"""
+    if not isinstance(result, VDict):
+        raise Unsupported("schema of an Enum class is not a literal dict")
+    e = result.items.get("type")
+    if e is None:
+        return VBool(True)
+    p, v = e
+    tv = v.t if isinstance(v, VStr) else sym.unbox_str(ex.box(v))
+    conj = []
+    for mem in t.py.__members__.values():
+        names = _JSON_TYPE_OF[type(mem.value)]
+        conj.append(z3.Or(*[tv == z3.StringVal(n) for n in names]))
+    return VBool(z3.Implies(p, z3.And(*conj)))
+
+
+@specfn("lists_every_member_value")
+def _lists_members(ex, fr, result, t):
+    e = result.items.get("enum") if isinstance(result, VDict) else None
+    if e is None:
+        return VBool(False)
+    seq = e[1]
+    want = [VInt(m.value) if isinstance(m.value, int) else VStr(m.value) for m in t.py.__members__.values()]
+    return VBool(z3.And(e[0], *[ex.world.ext.contains(ex, seq, w, None) for w in want]))
+
+
+@contract(G, "JsonSchemaGenerator.generate_for_type", props=["C13"], which="enum")
+class GEN_FOR_ENUM:
+    """`every value the parser produces validates against the output schema after JSON encoding`, for Enum classes: the
+    encoder publishes a member as its value, so the schema must list every member value under `enum`, and a `type`
+    keyword, if present, must admit ALL of them -- also for an Enum whose members have values of different types."""
+    cases = {k: dict(self=Rec("JsonSchemaGenerator"), t=Cls(py)) for k, py in _ENUM_CASES.items()}
+    result = OBJ
+    returns = {"enum_lists_every_member_value": "lists_every_member_value(result, t)",
+               "type_keyword_admits_every_member": "type_keyword_admits_every_member(result, t)"}
+    only_raises = []
+    assumes = ["three representative Enum classes (all-int, all-str, mixed int/str members); PRIMITIVE_MAP / FORMAT_MAP are read from constant.py"]
+
+
+GEN_FOR_ENUM.key = (G, "JsonSchemaGenerator.generate_for_type#enum")
